@@ -2,7 +2,7 @@
    read_col v1/v2 call shapes, schema level computation, map zipping).  Values are naturals
    (the harness maps every physical value to its index in a per-case value table). *)
 From Coq Require Import NArith ZArith List String Bool.
-From Pq Require Import Base.Bytes Format.Nested Impl.CAssemble Extract.Sx.
+From Pq Require Import Base.Bytes Format.Nested Impl.CAssemble Proofs.CAssembleProofs Extract.Sx.
 Import ListNotations.
 Open Scope string_scope.
 
@@ -121,7 +121,19 @@ Definition h_zip_maps (a : list sx) : sx :=
   | _ => err "arity"
   end.
 
+(* (split_guard ro eo pages) -> (pages_aligned good_split): the decidable hypotheses of C15_pages_partial *)
+Definition h_split_guard (a : list sx) : sx :=
+  match a with
+  | [ro; eo; pages] =>
+    match as_bool ro, as_bool eo, as_list_of as_page pages with
+    | Some ro, Some eo, Some pages =>
+      let sh := mkShape ro eo in SL [sbool (pages_aligned sh pages); sbool (good_split sh pages)]
+    | _, _, _ => err "args"
+    end
+  | _ => err "arity"
+  end.
+
 Definition table : list (string * handler) :=
   [("shred", h_shred); ("assemble_spec", h_assemble_spec); ("assemble_page", h_assemble_page);
    ("run_v1", h_run_v1); ("run_v2", h_run_v2); ("sch", h_sch); ("shape_levels", h_shape_levels);
-   ("zip_maps", h_zip_maps)].
+   ("zip_maps", h_zip_maps); ("split_guard", h_split_guard)].
